@@ -141,6 +141,8 @@ func bindKdc(rep *Report, env *Env) int {
 		{"SILENT.TEST", startBinKdc("silent", "silent"), 503},
 		{"REFUSED.TEST", startBinKdc("refuse", "silent"), 503},
 		{"TRUNCATED.TEST", startBinKdc("truncate", "silent"), 503},
+		// a child realm of the default realm with its own KDC; krb5.conf maps the parent's DNS suffix to the parent
+		{"EMEA.TCPREPLY.TEST", startBinKdc("reply", "silent"), 200},
 	}
 	defer func() {
 		for _, r := range realms {
@@ -154,6 +156,7 @@ func bindKdc(rep *Report, env *Env) int {
 	for _, r := range realms {
 		fmt.Fprintf(&sb, " %s = {\n  kdc = 127.0.0.1:%d\n }\n", r.name, r.kdc.port)
 	}
+	sb.WriteString("\n[domain_realm]\n .tcpreply.test = TCPREPLY.TEST\n tcpreply.test = TCPREPLY.TEST\n")
 	os.WriteFile(kc, []byte(sb.String()), 0o644)
 	defer os.Remove(kc)
 	port := freePort()
@@ -258,13 +261,26 @@ func bindKdc(rep *Report, env *Env) int {
 			break
 		}
 	}
-	// a realm that is not configured: an answer, not 200, nothing sent anywhere
-	{
+	// a realm that is not configured (one of them below the DNS suffix mapped to the default realm): an answer,
+	// not 200, nothing sent anywhere
+	for _, name := range []string{"NOWHERE.TEST", "LAB.TCPREPLY.TEST"} {
 		n++
 		rep.add("executions", 1)
-		resp, _ := post("POST", der.KdcProxyMessage(msg, "NOWHERE.TEST", true, 0, false), 30*time.Second)
+		seen := func() int {
+			t := 0
+			for _, r := range realms {
+				r.kdc.mu.Lock()
+				t += len(r.kdc.gotTCP) + len(r.kdc.gotUDP)
+				r.kdc.mu.Unlock()
+			}
+			return t
+		}
+		before := seen()
+		resp, _ := post("POST", der.KdcProxyMessage(msg, name, true, 0, false), 30*time.Second)
 		if resp.Closed || resp.Timeout || resp.Status == 200 || resp.Status == 0 {
-			viol("unknown-realm", fmt.Sprintf("status %d closed=%v", resp.Status, resp.Closed))
+			viol("unknown-realm/"+name, fmt.Sprintf("status %d closed=%v", resp.Status, resp.Closed))
+		} else if after := seen(); after != before {
+			viol("message-for-an-unconfigured-realm-sent-to-a-kdc/"+name, fmt.Sprintf("status %d; %d message(s) arrived at KDCs of other realms", resp.Status, after-before))
 		}
 	}
 	// other methods and malformed bodies are answered too
